@@ -1,6 +1,7 @@
 import Pyxv.Model.OpsXml
 import Pyxv.Model.OpsForm
 import Pyxv.Model.OpsValidator
+import Pyxv.Model.OpsChannel
 /-!
 Driver: one JSON request per line on stdin, one JSON reply per line on stdout.
 `{"op": "<name>", …}` → `{"ok": true, "v": …}` | `{"ok": false, "err": "…"}`.
@@ -8,7 +9,7 @@ Driver: one JSON request per line on stdin, one JSON reply per line on stdout.
 open Lean Pyxv
 
 def handlers : List (String → Json → Option (Except String Json)) :=
-  [Xml.opsXml, Form.opsForm, Validator.opsValidator]
+  [Xml.opsXml, Form.opsForm, Validator.opsValidator, Chan.opsChannel]
 
 def dispatch (op : String) (j : Json) : Except String Json :=
   let rec go : List (String → Json → Option (Except String Json)) → Except String Json
